@@ -557,7 +557,7 @@ func (c20) Generate(seed uint64, i int, tier string) *Scenario {
 		case m < 97:
 			op.Op = "new"
 		default:
-			op.Op, op.S = "newkw", pickField(c20scalars)
+			op.Op, op.S = r.Pick([]string{"newkw", "newkw", "newdict"}), pickField(c20scalars)
 		}
 		if theme == 0 && r.Chance(1, 8) {
 			// assign whatever another field holds (same or different element type)
@@ -651,7 +651,7 @@ func (c20) Generate(seed uint64, i int, tier string) *Scenario {
 				}
 			}
 		}
-		if vs := c20valuesFor(op.S); len(vs) > 0 && (op.Op == "set" || op.Op == "setf" || op.Op == "newkw") && (r.Chance(3, 4) || theme >= 1) {
+		if vs := c20valuesFor(op.S); len(vs) > 0 && (op.Op == "set" || op.Op == "setf" || op.Op == "newkw" || op.Op == "newdict") && (r.Chance(3, 4) || theme >= 1) {
 			op.B = int64(vs[r.Intn(len(vs))])
 		}
 		if (op.Op == "alias_rec") && int(op.A) == op.Obj && !r.Chance(1, 40) {
@@ -1151,6 +1151,137 @@ func (x *c20run) fatal() bool {
 	return false
 }
 
+// pvEqual compares a Starlark value read through lib/proto with the underlying
+// protoreflect value, converted independently here.
+func pvEqual(fd protoreflect.FieldDescriptor, got starlark.Value, pv protoreflect.Value) bool {
+	switch fd.Kind() {
+	case protoreflect.BoolKind:
+		b, ok := got.(starlark.Bool)
+		return ok && bool(b) == pv.Bool()
+	case protoreflect.Int32Kind, protoreflect.Sint32Kind, protoreflect.Sfixed32Kind, protoreflect.Int64Kind, protoreflect.Sint64Kind, protoreflect.Sfixed64Kind:
+		i, ok := got.(starlark.Int)
+		if !ok {
+			return false
+		}
+		v, ok := i.Int64()
+		return ok && v == pv.Int()
+	case protoreflect.Uint32Kind, protoreflect.Fixed32Kind, protoreflect.Uint64Kind, protoreflect.Fixed64Kind:
+		i, ok := got.(starlark.Int)
+		if !ok {
+			return false
+		}
+		v, ok := i.Uint64()
+		return ok && v == pv.Uint()
+	case protoreflect.FloatKind, protoreflect.DoubleKind:
+		f, ok := got.(starlark.Float)
+		return ok && (float64(f) == pv.Float() || (float64(f) != float64(f) && pv.Float() != pv.Float()))
+	case protoreflect.StringKind:
+		x, ok := got.(starlark.String)
+		return ok && string(x) == pv.String()
+	case protoreflect.BytesKind:
+		x, ok := got.(starlark.Bytes)
+		return ok && string(x) == string(pv.Bytes())
+	case protoreflect.EnumKind:
+		e, ok := got.(starproto.EnumValueDescriptor)
+		return ok && e.Desc != nil && e.Desc.Number() == pv.Enum() && e.Desc.Parent() == fd.Enum()
+	case protoreflect.MessageKind, protoreflect.GroupKind:
+		m, ok := got.(*starproto.Message)
+		return ok && m.Message().ProtoReflect() == pv.Message()
+	}
+	return false
+}
+
+// viewsAgree: every route by which Starlark reads a message's content — field
+// access, Index / iteration / Len of repeated views, Get / Items / iteration /
+// Len of map views — yields exactly what the message holds.
+func viewsAgree(m *starproto.Message) string {
+	pm := m.Message().ProtoReflect()
+	bad := ""
+	pm.Range(func(fd protoreflect.FieldDescriptor, pv protoreflect.Value) bool {
+		name := string(fd.Name())
+		got, err := m.Attr(name)
+		if err != nil || got == nil {
+			bad = fmt.Sprintf("field %s cannot be read: %v", name, err)
+			return false
+		}
+		switch {
+		case fd.IsList():
+			rf, ok := got.(*starproto.RepeatedField)
+			l := pv.List()
+			if !ok || rf.Len() != l.Len() {
+				bad = fmt.Sprintf("repeated %s: view has length %v, the message holds %d", name, got, l.Len())
+				return false
+			}
+			it := rf.Iterate()
+			var e starlark.Value
+			i := 0
+			for ; it.Next(&e); i++ {
+				if i >= l.Len() || !pvEqual(fd, e, l.Get(i)) || !pvEqual(fd, rf.Index(i), l.Get(i)) {
+					bad = fmt.Sprintf("repeated %s: element %d reads as %v / %v, the message holds %v", name, i, e, rf.Index(i), l.Get(i))
+					break
+				}
+			}
+			it.Done()
+			if bad == "" && i != l.Len() {
+				bad = fmt.Sprintf("repeated %s: iteration yields %d elements of %d", name, i, l.Len())
+			}
+		case fd.IsMap():
+			mf, ok := got.(*starproto.MapField)
+			mp := pv.Map()
+			if !ok || mf.Len() != mp.Len() {
+				bad = fmt.Sprintf("map %s: view has length %v, the message holds %d", name, got, mp.Len())
+				return false
+			}
+			items := mf.Items()
+			if len(items) != mp.Len() {
+				bad = fmt.Sprintf("map %s: Items() yields %d entries of %d", name, len(items), mp.Len())
+				return false
+			}
+			it := mf.Iterate()
+			var k starlark.Value
+			n := 0
+			for ; it.Next(&k); n++ {
+				if n >= len(items) {
+					break
+				}
+				if eq, err := starlark.Equal(k, items[n][0]); err != nil || !eq {
+					bad = fmt.Sprintf("map %s: iteration yields key %v where Items() has %v", name, k, items[n][0])
+					break
+				}
+			}
+			it.Done()
+			if bad == "" && n != mp.Len() {
+				bad = fmt.Sprintf("map %s: iteration yields %d keys of %d", name, n, mp.Len())
+			}
+			matched := 0
+			mp.Range(func(mk protoreflect.MapKey, mv protoreflect.Value) bool {
+				for _, kv := range items {
+					if pvEqual(fd.MapKey(), kv[0], mk.Value()) {
+						matched++
+						if !pvEqual(fd.MapValue(), kv[1], mv) {
+							bad = fmt.Sprintf("map %s: Items() gives %v for key %v, the message holds %v", name, kv[1], kv[0], mv)
+						}
+						if g, found, err := mf.Get(kv[0]); err != nil || !found || !pvEqual(fd.MapValue(), g, mv) {
+							bad = fmt.Sprintf("map %s: Get(%v) = %v found=%v err=%v, the message holds %v", name, kv[0], g, found, err, mv)
+						}
+						break
+					}
+				}
+				return bad == ""
+			})
+			if bad == "" && matched != mp.Len() {
+				bad = fmt.Sprintf("map %s: %d of its %d keys do not appear in Items() (keys read as %v)", name, mp.Len()-matched, mp.Len(), items)
+			}
+		default:
+			if !pvEqual(fd, got, pv) {
+				bad = fmt.Sprintf("field %s reads as %v, the message holds %v", name, got, pv)
+			}
+		}
+		return bad == ""
+	})
+	return bad
+}
+
 // afterOp: clause (2) type validity of every live message, clause (4) frozen
 // encodings unchanged.
 func (x *c20run) afterOp() {
@@ -1165,6 +1296,10 @@ func (x *c20run) afterOp() {
 		}
 		if bad := typeWalk(m.Message().ProtoReflect(), map[protoreflect.Message]bool{}); bad != "" {
 			x.fail("ill-typed-field", "after the op, v%d: %s", i, bad)
+			return
+		}
+		if bad := viewsAgree(m); bad != "" {
+			x.fail("read-back-differs", "v%d: %s", i, bad)
 			return
 		}
 	}
@@ -1210,9 +1345,13 @@ func (x *c20run) apply(op Op) {
 			x.frozen[op.Obj] = false
 			delete(x.snaps, op.Obj)
 		}
-	case "newkw":
+	case "newkw", "newdict":
 		kind, _ := fieldKind(op.S)
-		v, err := run(fmt.Sprintf("R = Msg(%s=V)\n", op.S))
+		ctor := fmt.Sprintf("R = Msg(%s=V)\n", op.S)
+		if op.Op == "newdict" {
+			ctor = fmt.Sprintf("R = Msg({%q: V})\n", op.S)
+		}
+		v, err := run(ctor)
 		if len(x.res.Violations) > nviol {
 			return
 		}
@@ -1340,7 +1479,11 @@ func (x *c20run) apply(op Op) {
 			return
 		}
 		if V == starlark.None {
-			return // None unsets the field
+			// None unsets the field: an accepted None must leave it cleared
+			if fd := c20msg.Fields().ByName(protoreflect.Name(op.S)); err == nil && fd != nil && A.Message().ProtoReflect().Has(fd) {
+				x.fail("lossy-assignment", "assigning None to .%s succeeded but the field still holds %v", op.S, A.Message().ProtoReflect().Get(fd))
+			}
+			return
 		}
 		switch shape {
 		case "scalar", "msg":
@@ -1759,7 +1902,7 @@ func (c20) Shape(sc *Scenario, class string) string {
 				alias = true
 			}
 		}
-		if o.Op == "set" || o.Op == "xset" || o.Op == "setf" || o.Op == "append" || o.Op == "setidx" || o.Op == "alias_rep" || o.Op == "alias_map" || o.Op == "newkw" {
+		if o.Op == "set" || o.Op == "xset" || o.Op == "setf" || o.Op == "append" || o.Op == "setidx" || o.Op == "alias_rep" || o.Op == "alias_map" || o.Op == "newkw" || o.Op == "newdict" {
 			k, shape := fieldKind(o.S)
 			s += ":" + shape + ":" + k
 		}
